@@ -170,7 +170,7 @@ def workerNackRest (batch : Batch) (n : Nat) (err : Option Err) (s1 : PS) : Exce
     if n > batch.original.pos.length then (.error (.panic "slice bounds out of range: positions[:n]"), s1)
     else if !validateAckPositions (batch.original.pos.take n) then
       (match err with
-        | some _ => (.error (.err (fatalE plainErr)), s1)
+        | some e => (.error (.err (fatalE (joinErr (coded "pipeline.empty_source_position") (wrap e)))), s1)
         | none => (.error (.err (fatalE (coded emptyPos))), s1))
     else
       let s2 : PS := { s1 with log := s1.log.push (.sack (batch.original.pos.take n)) }
